@@ -242,7 +242,7 @@ impl Alpha {
 
 /// Read one inner list through the audit hook. `relaxed` = after an injected fault: only the
 /// memory-safety subset is required (reachable nodes live, their K/V live objects).
-pub fn snap_list<K: SimKey, E, S>(l: &RawLRU<K, TV, E, S>, relaxed: bool) -> ListSnap {
+pub fn snap_list<K: SimKey, E: caches::OnEvictCallback, S: std::hash::BuildHasher>(l: &RawLRU<K, TV, E, S>, relaxed: bool) -> ListSnap {
     let mut ents: Vec<Ent> = Vec::new();
     let mut problems: Vec<String> = Vec::new();
     let mut visit = |addr: usize, k: &K, v: &TV| {
@@ -271,7 +271,10 @@ pub fn snap_list<K: SimKey, E, S>(l: &RawLRU<K, TV, E, S>, relaxed: bool) -> Lis
         });
     };
     let mut is_live = |a: usize, sz: usize| crate::alloc::is_live(a, sz);
-    let rep: ListAudit = l.verif_audit(1 << 16, &mut is_live, &mut visit);
+    // a well-formed chain closes after len() nodes: a small slack is enough to tell a cycle or a
+    // run-away chain from a closed one (and keeps the audit O(len) on corrupted lists)
+    let bound = caches::Cache::len(l).saturating_add(4);
+    let rep: ListAudit = l.verif_audit(bound, &mut is_live, &mut visit);
     // structural verdict
     if let Some(d) = rep.dead_node {
         problems.push(format!(
